@@ -43,6 +43,7 @@ Definition fs_isdir (fs : fsys) (p : path) : bool :=
   | Some (NLink t) => match fs t with Some NDir => true | _ => false end
   | _ => false
   end.
+Definition fs_islink (fs : fsys) (p : path) : bool := match fs p with Some (NLink _) => true | _ => false end.
 Definition fs_lexists (fs : fsys) (p : path) : bool := match fs p with Some _ => true | None => false end.
 Definition fs_realpath (fs : fsys) (p : path) : path := match fs p with Some (NLink t) => t | _ => p end.
 (* reading through a final link *)
